@@ -65,7 +65,7 @@ func init() {
 		Assumptions: []string{
 			"environment: the last save leaves the file present; modification times increase with every save; only plain Write events are ever dropped (the watch stays and the 10 s poll can still see the change); fs event loss that also loses the watch (inotify queue overflow) is outside the property's quantifier",
 			"duplicates are allowed (the statement allows them and the real watcher re-broadcasts on its poll tick)",
-			"final delivery is demanded only of clients that are still connected; a client the simulator kept from reading for >= 25 simulated seconds may be disconnected by the server's 30 s write timeout",
+			"final delivery is demanded only of clients that are still connected; a client the simulator kept from reading for >= 4 simulated seconds may be disconnected by the server (5 s write timeout of the heartbeat's ping, 30 s for results)",
 			"liveness bound once faults stop: 60 simulated seconds",
 			"page GETs (board switching) are not simulated",
 		},
